@@ -54,6 +54,9 @@ type Spec struct {
 	Replicas int `json:"replicas,omitempty"`
 	// Shapes marks a search over honest provider answer shapes (the opts builders of the properties read it)
 	Shapes bool `json:"shapes,omitempty"`
+	// DebugLog: the world runs with log_level all:debug (EnableDebugLogging: process-wide and irreversible, so such
+	// worlds come last in a run)
+	DebugLog bool `json:"debug_log,omitempty"`
 }
 
 const (
@@ -187,6 +190,9 @@ func (p *MiniPool) Put(m *miniredis.Miniredis) {
 // New builds a world from spec.
 func New(spec Spec) *World {
 	initKeys()
+	if spec.DebugLog {
+		EnableDebugLogging()
+	}
 	w := &World{Spec: spec, now: T0, Env: &Env{}}
 	w.Clock = oidc.Clock{NowFn: func() time.Time { return w.now }}
 	w.TLSPool = sharedPool()
